@@ -32,6 +32,11 @@ class Interp(Engine):
         config: dict of concrete parameter values (e.g. {'opc': module})."""
         fs = extract.find_function(contract.modname, contract.qualname)
         mod = extract.import_repo_module(contract.modname)
+        for d in fs.node.decorator_list:
+            dn = ast.unparse(d)
+            if dn not in ("builtinify", "staticmethod", "classmethod"):
+                self.undecide("%s[%s]" % (contract.target, label), "decorator @%s on the function under contract is not modelled: contract needs maintenance" % dn)
+                return fs
         self.current = contract
         self.cur_fs = fs
         self.cur_label = label
